@@ -29,7 +29,7 @@ RULE = ("per grammar (version, version constraint [parse_constraint + parse_mark
         "extra], marker [parse_marker + raw tree], PEP 508 requirement, dependency [create_from_pep_508]) one seeded stream: 22% valid "
         "inputs from the repo-grammar generators, 38% 1-3 token-level mutations of valid inputs (insert/delete/duplicate/swap/replace a "
         "token, truncate, behead, case, odd whitespace \\t \\n \\x0b \\x0c \\x1c-\\x1f \\x85 \\xa0 U+1680 U+2000-200A U+2028/9 U+202F U+205F "
-        "U+3000 ZWSP BOM, Unicode digits, case-folding specials), 16% random sequences of valid tokens, 6% duplicated operators, 6% odd "
+        "U+3000 ZWSP BOM, Unicode digits, case-folding specials), 16% random sequences of valid tokens, 2.5% duplicated operators, 3.5% a 1-3 token window repeated 12-200 times with a failing tail, 6% odd "
         "whitespace at every token boundary, 5% Unicode digits, 2.5% raw characters, 4.5% long inputs (one token repeated up to 10^4 "
         "characters, chains of 20-1200 clauses, parentheses nested 5-3000 deep). Outcome per case on the real code: ok(text) | "
         "documented-error | other(type) | timeout (5 s CPU, confirmed by a second run); ok values are printed and the text re-parsed. "
